@@ -3,6 +3,7 @@ package main
 // specsem.go: evaluation of contract expressions in a symbolic state; frames; ghost updates.
 
 import (
+	"regexp"
 	"fmt"
 	"os"
 	"go/ast"
@@ -362,6 +363,38 @@ func (env *SpecEnv) expand(m *Macro, args []Val) Val {
 	c.frame = nil
 	for i, p := range m.Params {
 		c.bind[p] = args[i]
+	}
+	// a macro written over the type parameters of a generic type (K, V of btree[K, V]) may be used
+	// where that type is instantiated under other names (btree[T, struct{}] in Set[T]): the names of
+	// the origin's type parameters denote the arguments' type arguments inside the macro
+	for _, a := range args {
+		t := a.Go
+		if t == nil {
+			continue
+		}
+		if p, ok := types.Unalias(t).Underlying().(*types.Pointer); ok {
+			t = p.Elem()
+		}
+		if n, ok := types.Unalias(t).(*types.Named); ok && n.TypeArgs() != nil && n.TypeArgs().Len() > 0 {
+			tps := n.Origin().TypeParams()
+			for i := 0; i < tps.Len() && i < n.TypeArgs().Len(); i++ {
+				name := tps.At(i).Obj().Name()
+				ta := n.TypeArgs().At(i)
+				if tp, isTP := ta.(*types.TypeParam); isTP && tp.Obj().Name() == name {
+					continue
+				}
+				if c.typeAlias == nil || &c.typeAlias == &env.typeAlias {
+					na := map[string]types.Type{}
+					for k, v := range env.typeAlias {
+						na[k] = v
+					}
+					c.typeAlias = na
+				}
+				if _, has := c.typeAlias[name]; !has {
+					c.typeAlias[name] = ta
+				}
+			}
+		}
 	}
 	if pk := env.ex.prog.Pkgs[m.Pkg]; pk != nil {
 		c.pkg = pk
@@ -982,6 +1015,34 @@ func (env *SpecEnv) resolveType(s string) (types.Type, *Sort) {
 }
 
 func (env *SpecEnv) tryResolveType(s string) (types.Type, *Sort) {
+	ty, srt := env.tryResolveType0(s)
+	if srt != nil || len(env.typeAlias) == 0 || env.typeScopeNamed != nil {
+		return ty, srt
+	}
+	// retry with the aliased type-parameter names substituted inside the type text
+	s0 := s
+	{
+		// substitute aliased type-parameter names inside a composite type text
+		for name, ty := range env.typeAlias {
+			re := regexp.MustCompile(`\b` + regexp.QuoteMeta(name) + `\b`)
+			if re.MatchString(s) {
+				qual := func(p *types.Package) string {
+					if env.pkg != nil && p == env.pkg.P.Types {
+						return ""
+					}
+					return p.Name()
+				}
+				s = re.ReplaceAllString(s, types.TypeString(ty, qual))
+			}
+		}
+	}
+	if s == s0 {
+		return nil, nil
+	}
+	return env.tryResolveType0(s)
+}
+
+func (env *SpecEnv) tryResolveType0(s string) (types.Type, *Sort) {
 	ex := env.ex
 	s = strings.TrimSpace(s)
 	if ty, ok := env.typeAlias[s]; ok {
